@@ -129,10 +129,10 @@ def obligations(tier, seed):
     ] + ([
         # CANDIDATES (only with VERIF_CANDIDATES=1): refute the unchanged tree (TODO-defect-candidates.md items 8, 9)
         Ob("highlight_first_cell", func="h_c17_highlight",
-           desc="continuation positions left by highlight() for a match that begins in row 1 column 0 (match [0, 1) and [0, 41) on the grid), from ANY earlier value of "
+           desc="continuation positions left by highlight() for a match that begins in row 1 column 0 (match [0, 1)), from ANY earlier value of "
                 "row[1]/col[1]: they must become row 1 / column 0 (the cell the match starts in); refuted: they are written only for cells in front of the match and stay "
                 "stale, the next backward call searches the whole page again and finds the same occurrence - NOT_FOUND never comes",
-           encodes=["highlight"], defines={"NP": 1, "HL_MS": 0}, grid=[dict(HL_ME=1), dict(HL_ME=41)], patch=PATCH, unwind=42,
+           encodes=["highlight"], defines={"NP": 1, "HL_MS": 0}, grid=[dict(HL_ME=1)], patch=PATCH,     # HL_ME=41 (match over the whole first row): no verdict in 900 s (82 stores into the 1056 cell page constant) unwind=42,
            unwindset=dict(us, **{"highlight.0": 42, "highlight.1": 25}), flags=["--max-field-sensitivity-array-size", "4"],
            bounds="match position concrete, earlier continuation state symbolic; all cells NORMAL_SIZE", reach=["end", "match_in_first_cell"], timeout=900, mem_gb=6, vin_size=32, **common),
         Ob("foreach_real_start_outside_window", harness="h_c17_foreach.c", func="h_c17_foreach",
